@@ -30,7 +30,7 @@ type value struct {
 }
 
 func openValue(dir, ext string) (*value, error) {
-	matches, err := filepath.Glob(filepath.Join(dir, "*"+ext))
+	matches, err := filepath.Glob(filepath.Join(globEscape(dir), "*"+ext))
 	if err != nil {
 		return nil, err
 	}
